@@ -8,6 +8,7 @@ Float laws used: none.
 -/
 import CambrianModel.Lemmas.MutLemmas
 import CambrianModel.Lemmas.MutGenLemmas
+import CambrianModel.Lemmas.PathLemmas
 namespace Cambrian.Props
 open Cambrian
 
@@ -60,6 +61,47 @@ theorem C13_id_alg (o : MutOracle) (hc : o.Consistent .zero) (s : SNode) (p : Pa
 theorem C13_step_alg (o : MutOracle) (pc : PClass) (hc : o.Consistent pc) (s : SNode) (p : Path) (vi : VNode)
     (hs : wf s = true) (hi : conf s vi = true) : resizeLocal pc s vi (mutGen o s p vi) = true :=
   mutAcc_resizeLocal pc s vi _ hs hi (mutGen_mutAcc o pc hc s p vi hs hi)
+
+/-! ### the key manager (`path.rs::KeyManager`, add branch of `mutate_anon_map`) -/
+
+/-- The key given to an added element is FRESH whatever the history of the key manager at that path - whatever was
+    registered or handed out before, for whichever individual (the manager is shared by the whole population): it is
+    larger than every key of the map being mutated, so nothing is overwritten.  An obligation on three source facts
+    read on every run (`on_key_seen` raises the counter to `key + 1`, `next_key` hands out the counter, the existing
+    keys are registered right before the allocation): the `decide`s stop checking when the source loses one. -/
+theorem C13_key_fresh (k : KeyMgr) (m : VEntries) : (KeyMgr.allocNow k m.keys).1 ∉ m.keys := by
+  have h1 : Generated.keyMgrSeenIsMax = true := by decide
+  have h2 : Generated.keyMgrNextIsCounter = true := by decide
+  have h3 : Generated.keysRegisteredBeforeAlloc = true := by decide
+  simp only [KeyMgr.allocNow, h1, h2, h3]
+  exact KeyMgr.alloc_fresh k m.keys
+
+/-- ... it is never handed out again by the same manager (the counter moves past it) ... -/
+theorem C13_key_once (k : KeyMgr) (m m' : VEntries) :
+    (KeyMgr.allocNow (KeyMgr.allocNow k m.keys).2 m'.keys).1 ≠ (KeyMgr.allocNow k m.keys).1 := by
+  have h1 : Generated.keyMgrSeenIsMax = true := by decide
+  have h2 : Generated.keyMgrNextIsCounter = true := by decide
+  have h3 : Generated.keysRegisteredBeforeAlloc = true := by decide
+  simp only [KeyMgr.allocNow, h1, h2, h3]
+  have hn := KeyMgr.alloc_next k m.keys
+  have hg := KeyMgr.foldl_seen_ge (KeyMgr.alloc true true true k m.keys).2 m'.keys
+  simp only [KeyMgr.alloc, KeyMgr.next, if_true] at hn hg ⊢
+  omega
+
+/-- ... and it has the form `mutGen` assumes (largest key + 1, or 0 for an empty map, plus a non-negative bump), so
+    the algorithm model's oracle field `keyBump` is all that is left of the key manager's history. -/
+theorem C13_key_form (k : KeyMgr) (m : VEntries) :
+    ∃ bump, (KeyMgr.allocNow k m.keys).1 = (if m.keys.length == 0 then 0 else m.maxKey + 1) + bump := by
+  have h1 : Generated.keyMgrSeenIsMax = true := by decide
+  have h2 : Generated.keyMgrNextIsCounter = true := by decide
+  have h3 : Generated.keysRegisteredBeforeAlloc = true := by decide
+  simp only [KeyMgr.allocNow, h1, h2, h3]
+  exact KeyMgr.alloc_form k m
+
+/-- negative witnesses: without the registration loop (the code before fix D1) a manager that has not seen the map's
+    keys hands out a key the map already uses; a manager that recycles is not the model -/
+example : (KeyMgr.alloc true true false {} [0, 1]).1 ∈ [0, 1] := by decide
+example : (KeyMgr.allocNow { nextKey := 1 } [0, 5, 2]).1 = 6 := by decide
 
 /-- non-vacuity: a map grows by one fresh key at probability 1; overwriting an element is not accepted -/
 example :
